@@ -9,6 +9,7 @@ import (
 	"strconv"
 	"strings"
 	"sync"
+	"sync/atomic"
 	"testing"
 	"time"
 
@@ -346,10 +347,13 @@ func send(t vt.TB, kit *bk.Kit, mm *gostatsd.MetricMap) {
 				vt.Fail(t, "C17:send-error:"+kit.Variant.Name, "%s reports %v although the transport accepted everything", kit.Variant.Name, e)
 			}
 		}
-	case <-time.After(30 * time.Second):
-		vt.Fail(t, "C17:no-callback:"+kit.Variant.Name, "%s did not complete within 30s", kit.Variant.Name)
+	case <-time.After(time.Duration(atomic.LoadInt64(&sendPatienceMs)) * time.Millisecond):
+		atomic.StoreInt64(&sendPatienceMs, 3000) // rapid shrinking the case: 3 s instead of 30
+		vt.Fail(t, "C17:no-callback:"+kit.Variant.Name, "%s did not complete within the patience (30s; 3s after a first failure)", kit.Variant.Name)
 	}
 }
+
+var sendPatienceMs int64 = 30000
 
 // sendDropped sends a flush that the endpoint refuses (500) for as long as the backend keeps trying; the outcome is ignored.
 func sendDropped(kit *bk.Kit, mm *gostatsd.MetricMap) {
@@ -707,12 +711,26 @@ func TestRelayRoundTrip(t *testing.T) {
 			mm.Receive(&gostatsd.Metric{Name: "tk7", Type: gostatsd.GAUGE, Value: 1, Rate: 1, Tags: gostatsd.Tags{"blob:" + strings.Repeat("y", b2)}, Timestamp: 1})
 		}
 		name := rapid.SampledFrom([]string{"statsdaemon/udp", "statsdaemon/udp", "statsdaemon/tcp"}).Draw(t, "variant")
+		// rarely: a flush of more than a thousand datagrams over UDP (a thousand is what the relay's hand-over to its sender
+		// holds at a time): 1001..1100 series whose lines take a datagram each
+		crowd := rapid.IntRange(0, 29).Draw(t, "flush-of-a-thousand-datagrams") == 17
+		if crowd {
+			name = "statsdaemon/udp"
+			mm = gostatsd.NewMetricMap(false)
+			n := rapid.SampledFrom([]int{1001, 1100}).Draw(t, "datagrams")
+			for i := 0; i < n; i++ {
+				mm.Receive(&gostatsd.Metric{Name: fmt.Sprintf("tk%d", i%10), Type: gostatsd.GAUGE, Value: float64(i), Rate: 1, Tags: gostatsd.Tags{fmt.Sprintf("blob:%05d%s", i, strings.Repeat("x", 740))}, Timestamp: 1})
+			}
+		}
 		kit, err := bk.New(variant(name), bk.Options{})
 		if err != nil {
 			t.Fatalf("%v", err)
 		}
 		defer kit.Close()
 		desc := fmt.Sprintf("%s map=%v", name, gen.DescribeMap(mm))
+		if crowd {
+			desc = fmt.Sprintf("%s, one flush of %d gauge series with 750-byte tags (a datagram each)", name, countGauges(mm))
+		}
 		send(t, kit, gen.CopyMapSpare(mm))
 		want := model.Agg{}
 		lines := 0
@@ -767,11 +785,25 @@ func TestRelayRoundTrip(t *testing.T) {
 			time.Sleep(time.Millisecond)
 		}
 		if d := model.Diff(got, want, model.Opts{IgnoreTimestamps: true, SampledTol: 1e-9}); d != "" {
+			if crowd && kit.Loop.KernelDrops() != 0 {
+				// the kernel says it discarded datagrams at the listener (or cannot say): UDP lost them, not the relay
+				ev.C().Excluded("datagram-dropped-by-the-kernel", 1)
+				t.Skip("the kernel dropped a datagram")
+			}
+			if len(d) > 600 {
+				d = d[:600] + " ..."
+			}
 			vt.Fail(t, "C17:relay-roundtrip", "what the relay emitted parses back to something else than the aggregate: %s (%s)", d, desc)
 		}
 		chunks := kit.Loop.Snapshot()
 		ev.C().Case("R|"+desc, len(chunks) >= 2, "relay", "relay-"+kit.Variant.Socket)
 	})
+}
+
+func countGauges(mm *gostatsd.MetricMap) int {
+	n := 0
+	mm.Gauges.Each(func(_, _ string, _ gostatsd.Gauge) { n++ })
+	return n
 }
 
 func relayTags(tags gostatsd.Tags, src gostatsd.Source) []string {
